@@ -137,11 +137,16 @@ def permute_class_mappings(nspec, value, rng, failing):
             if kind != 'value' or args is None:
                 continue
             is_class = True
+            present = {k[2] for k, _ in s[1] if k[0] == 's'}
             for k, _ in s[1]:
                 if k[0] != 's':
                     is_class = False
                     break
-                if k[2] not in args and k[2].replace('-', '_') not in args:
+                under = k[2].replace('-', '_')
+                # a dashed key stands in for the underscored parameter only
+                # when that is not itself present; otherwise it is an extra
+                if k[2] not in args and (under not in args or (
+                        under != k[2] and under in present)):
                     extras.add(k[2])
         if not is_class:
             continue
